@@ -33,6 +33,10 @@ ASSUMPTIONS = c13.ASSUMPTIONS + ["every declared product has its own installatio
 
 def gen_graph(rng, wide=False):
     g = c13.gen_graph(rng, wide)
+    # tables with an exact and an else branch are C13's (exact-mode objects, VRO without type:exact); `eups remove` runs
+    # under the stock VRO, where the branch a table shows depends on what was resolved before: plain tables here
+    for p in g["products"]:
+        p.pop("xdeps", None)
     for p in g["products"]:
         if rng.random() < 0.2:
             p["tags"] = p["tags"] + ["beta"]
